@@ -171,5 +171,8 @@ fixed("C16", "3d2765e", ["c16:write:never-fired", "c16:established-connection-cl
 fixed("C13", "9e69195", ["c13:frames-only:%s:%s" % (n, k) for n, k in (("text-then-binary", "frames-reported-with-wrong-message-type"), ("binary-then-text", "frames-reported-with-wrong-message-type"), ("fragmented-then-other-type", "frames-reported-with-wrong-message-type"), ("continuation-after-complete-message", "not-failed"), ("text-inside-fragmented", "not-failed"), ("binary-inside-fragmented", "not-failed"), ("continuation-after-fragmented-message-ended", "not-failed"))],
       "endpoint with a data-frame callback only (Upgrader.OnDataFrame, no OnMessage): the message type and the 'fragments expected' flag are only maintained when a message handler is set - every frame is reported with the type of the first message ever, a stray continuation and a new data frame inside a fragmented message are accepted (pointed out as a side remark by a seeding agent; class frames-only)")
 
+fixed("C02", "aa1be85", ["c02:%s:ONESHOT:async:%s:%s" % (n, e, k) for n in ("tcp", "unix") for e in ("default", "goroutine", "pool") for k in ("callbacks-overlap", "stream-differs")],
+      "EPOLLONESHOT + AsyncReadInPoller, application writes while input keeps coming (pattern echo): a Write that leaves a backlog re-arms the one-shot event (it needs the writing event) while the reading job is still running; with input pending a second reading job starts - data callbacks of one connection overlap and the stream is handed over out of order (side remark of a seeding agent, who met it in a demo)")
+
 json.dump(F, open("/verif/known_findings.json", "w"), indent=1)
 print("wrote %d entries (%d known)" % (len(F), sum(1 for f in F if f["status"] == "known")))
